@@ -945,6 +945,9 @@ class Node(object):
         if type(newChild) == str:
             newChild = self.ownerDocument.createTextNode(newChild)
         if newChild.nodeType == Node.DOCUMENT_FRAGMENT_NODE:
+            # A negative index counts from the end only once, not for each item
+            if i < 0:
+                i = max(len(self.childNodes) + i, 0)
             for item in newChild:
                 self.insert(i, item, setParent=setParent)
                 i += 1
@@ -969,6 +972,9 @@ class Node(object):
         """
         if type(node) == str:
             node = self.ownerDocument.createTextNode(node)
+        # A negative index counts from the end of the list as it is now
+        if not(isinstance(i, slice)) and i < 0:
+            i += len(self.childNodes)
         # If a DocumentFragment is being inserted, but it isn't replacing
         # a slice, we need to put each child in manually.
         if node.nodeType == Node.DOCUMENT_FRAGMENT_NODE \
